@@ -33,7 +33,10 @@ TRUSTED = ['modelled, not verified: the header-end regular expression end_header
            'via=wsgi_frag: the model computes the parts itself (coq/model/MultipartFeed.v body_parts over Stream.v, '
            'theorem C06_result_independent_of_reads); via=wsgi_chunked: the part list (every transfer chunk cut into '
            'buffers, full reads) is computed by the harness (chunked_parts) — _iter_chunked itself is C05\'s model; '
-           'a request refused with 413 because of max_body_size is checked by the oracle only (C13\'s subject)']
+           'a request refused with 413 because of max_body_size is checked by the oracle only (C13\'s subject); the '
+           '"large wsgi default buffer" cases (100 KiB read buffers, default configuration) are oracle-only as well: '
+           'the extracted model works on unary positions and needs minutes for 100 KiB, the same situation is compared '
+           'with the model on 9-20 kB bodies (large single/double cut, large k-regular, large wsgi short reads)']
 ASSUMPTIONS = ['CR does not occur in the boundary (the code rejects such a boundary with InvalidBoundaryError)',
                'split independence is claimed for wf_prefix bodies (coq/model/MultipartRef.v: wf_prefixb); for other '
                'inputs the parser is knowingly split dependent (C12 covers them: no server fault)']
@@ -231,6 +234,65 @@ def mk_chunked(B, body, buf, sizes, wf=None, with_cl=False, label='wsgi-chunked'
     return c
 
 
+def filler(n, seed=7):
+    """n bytes of upload content: mostly text, sprinkled with CR, LF, dashes and delimiter look-alikes"""
+    unit = b'0123456789abcdef\r\n--x\r-\n' + bytes(range(200, 216))
+    out = (unit * (n // len(unit) + 1))[:n]
+    return out
+
+
+def large_body(B, nfill, tail_parts=1):
+    parts = [(disp(b'up', b'big.bin', b'application/octet-stream'), filler(nfill))]
+    for i in range(tail_parts):
+        parts.append((disp(b'field%d' % i), b'value-%d' % i))
+    return build(B, parts, epilogue=CRLF)
+
+
+def header_zone(B, body, which=2):
+    """[start, end): from just before the which-th delimiter to just after the CRLFCRLF of the header block after it"""
+    d = b'\r\n--' + B
+    i = -1
+    for _ in range(which - 1):
+        i = body.find(d, i + 1)
+    e = body.find(b'\r\n\r\n', i + 1)
+    return max(0, i - 2), min(len(body), (e if e >= 0 else i + len(d)) + 6)
+
+
+def large_cases(quick=True):
+    """read buffers of tens of kB that end around a delimiter / inside a later part's header block"""
+    out = []
+    B = b'LargeBnd7'
+    body = large_body(B, 9000, tail_parts=2)
+    a, b = header_zone(B, body, 2)
+    step = 4 if quick else 1
+    for pos in list(range(a, b, step)) + [b - 1]:
+        out.append(mk(B, cut(body, [pos]), wf=True, label='large single cut'))
+    for pos in (a + 3, (a + b) // 2, b - 5):
+        out.append(mk(B, cut(body, [300, pos]), wf=True, label='large double cut'))
+        out.append(mk(B, cut(body, [pos, pos + 1]), wf=True, label='large double cut'))
+    # regular buffers of 8 KiB + 1 ... : some buffer end falls into the third part's header block
+    body = large_body(B, 20000, tail_parts=2)
+    a3, b3 = header_zone(B, body, 3)
+    for k in (8193, 16384):
+        for off in (a3 + 5, (a3 + b3) // 2):
+            first = off % k or k
+            cuts_ = list(range(first, len(body), k))
+            out.append(mk(B, cut(body, cuts_), wf=True, label='large k-regular'))
+    # through WSGI with the DEFAULT max_memfile_size (102400): the second part's headers straddle the buffer end
+    probe = large_body(B, 1000)
+    pa, pb = header_zone(B, probe, 2)
+    for into in ((0, 3, 9, 30, pb - pa - 4) if quick else range(0, pb - pa, 2)):
+        nfill = 1000 + (102400 - (pa + into))
+        wbody = large_body(B, nfill)
+        c = mk_frag(B, wbody, 102400, [], wf=True, label='large wsgi default buffer')
+        c['default_cfg'] = True
+        c['oracle_only'] = True      # 100 KiB through the extracted model (unary positions) takes minutes
+        out.append(c)
+    c = mk_frag(B, large_body(B, 12000, 2), 8200, [8191, 20000], wf=True, label='large wsgi short reads')
+    out.append(c)
+    return out
+
+
 def corpus():
     out = []
     B, body = ADVERSARIAL[0]
@@ -293,6 +355,7 @@ def corpus():
         out.append(mk(B, [[x] for x in body], wf=True, label='byte at a time'))
         for k in range(1, len(B) + 7):
             out.append(mk(B, [list(body[i:i + k]) for i in range(0, len(body), k)], wf=True, label='k-regular'))
+    out.extend(large_cases(quick=True))
     return out
 
 
@@ -463,6 +526,8 @@ def gen(rng, n):
 
 
 def thorough():
+    for c in large_cases(quick=False):
+        yield c
     # explicit cases (model compared too): every single and double cut of every prefix of short bodies
     short = [(b'B', build(b'B', [(b'a', b'\r\n-')], epilogue=CRLF)),
              (b'-', build(b'-', [(b'-', b'\r\n--\r')], lead=True, epilogue=b'-')),
@@ -565,10 +630,10 @@ def wsgi_forms(B, body, buf):
     return res
 
 
-def wsgi_call(B, wire, buf, sched, cl=None, maxb=None, ctype=0, warm=False, chunked=False):
+def wsgi_call(B, wire, buf, sched, cl=None, maxb=None, ctype=0, warm=False, chunked=False, default_cfg=False):
     """POST through Ombott.__call__; wsgi.input delivers the bytes with short reads per the schedule"""
     from ombott import Ombott
-    app = Ombott(dict(max_memfile_size=buf, max_body_size=maxb))
+    app = Ombott() if default_cfg else Ombott(dict(max_memfile_size=buf, max_body_size=maxb))
     seen = {}
 
     def canon_val(v):
@@ -684,7 +749,8 @@ def run_impl(case):
     elif case['via'] == 'wsgi_frag':
         data = bytes(case.get('data', body))
         w = wsgi_call(B, data, case['buf'], case['sched'], cl=case.get('cl'), maxb=case.get('maxb'),
-                      ctype=case.get('ctype', 0), warm=case.get('warm', False))
+                      ctype=case.get('ctype', 0), warm=case.get('warm', False),
+                      default_cfg=case.get('default_cfg', False))
         obs['stream'] = w.pop('markup', None)
         obs['wsgi'] = w
         # reference: the bytes the server may read (the first Content-Length bytes), in one piece, no limit
@@ -709,7 +775,12 @@ def run_impl(case):
     return obs
 
 
+EMPTY_OBS = dict(stream=dict(secs=[], err=None), one=dict(secs=[], err=None), wf=True)
+
+
 def project(obs, case):
+    if case.get('oracle_only'):
+        return EMPTY_OBS         # the model is given the empty body for this case (see encode)
     return dict(stream=obs.get('stream'), one=obs.get('one'), wf=obs.get('wf'))
 
 
@@ -719,6 +790,8 @@ def body_rejected(case):
 
 
 def encode(case):
+    if case.get('oracle_only'):
+        return [0] + enc_str(case['boundary']) + enc_list([], enc_str)
     if case['via'] == 'wsgi_frag' and not body_rejected(case):
         # the model derives the parts from the stream itself (MultipartFeed.body_parts)
         return ([1, case['cl'], case['buf']] + enc_str(case['boundary']) + enc_str(case['data'])
